@@ -118,7 +118,8 @@ impl BranchRule {
             return None;
         }
 
-        let prefix = &self.pattern[..self.pattern.len() - 2];
+        // keep the slash: "release/*" is about names under "release/", not "releasex/..."
+        let prefix = &self.pattern[..self.pattern.len() - 1];
         if !branch_name.starts_with(prefix) || branch_name.len() == prefix.len() {
             return None;
         }
@@ -232,7 +233,8 @@ impl BranchRule {
             !branch.is_empty()
         } else if self.pattern.ends_with("/*") {
             // Regular wildcard pattern: "release/*" matches branches
-            let prefix = &self.pattern[..self.pattern.len() - 2];
+            // (prefix includes the slash, so "releasex/3" or "release-3" do not match)
+            let prefix = &self.pattern[..self.pattern.len() - 1];
             branch.starts_with(prefix) && branch.len() > prefix.len()
         } else {
             // Exact pattern match: "develop" matches only "develop"
